@@ -2892,7 +2892,11 @@ impl TryInto<Vec<Value>> for DataType {
                     })
                     .collect::<Result<Vec<_>>>()?;
 
-                let first = vec_of_vec[0].clone();
+                // A struct without field has a single value: the empty struct
+                let first = vec_of_vec
+                    .first()
+                    .cloned()
+                    .unwrap_or_else(|| vec![Value::structured(Vec::<(String, Value)>::new())]);
                 Ok(vec_of_vec
                     .into_iter()
                     .skip(1)
